@@ -19,12 +19,24 @@ Steps: one per atomic site of the instrumented code (`Store:responseClosed`, `Ca
 `CAS:responseClosed` and `Send` as one step while the theorems interleave them freely).
 A caller's deadline is the step `Timeout` of its timer; the `select` takes the timeout branch only when the
 response channel is empty at that moment (a reply that is already there wins).
+
+Variants (`Mode`):
+* `asIs`   — the code as it is;
+* `noPool` — `getContext` / `getResponseChannel` always allocate (the guard "no pooled reuse");
+* `fixed`  — the proposed repair (fixes/C15-ask-no-late-store.diff): after its select the caller does not touch
+  the receive context any more (no late `responseClosed.Store(true)`), pools the response channel only when the
+  reply has arrived and leaves it to the GC on a timeout.  The caller then has no atomic site after the select,
+  so the select and what follows it are one step.
 -/
 namespace GoaktVerif.Model.C15
 
 abbrev CtxId := Nat
 abbrev ChanId := Nat
 abbrev ReqId := Nat
+
+inductive Mode where
+  | asIs | noPool | fixed
+  deriving Repr, DecidableEq
 
 structure Ctx where
   closed : Bool              -- responseClosed
@@ -68,7 +80,7 @@ structure Thread where
   deriving Repr, DecidableEq
 
 structure Cfg where
-  pooling : Bool                 -- false: `getContext` / `getResponseChannel` always allocate (the guard of the partial theorem)
+  mode : Mode
   ctxs : List Ctx
   chans : List (Option ReqId)    -- capacity-1 buffers
   ctxPool : List CtxId           -- contextCh (FIFO: take the head, put at the end)
@@ -89,15 +101,17 @@ def setChan (c : Cfg) (i : ChanId) (v : Option ReqId) : Cfg := { c with chans :=
 
 /-- `getContext()` -/
 def getContext (c : Cfg) : CtxId × Cfg :=
-  match c.pooling, c.ctxPool with
-  | true, i :: rest => (i, { c with ctxPool := rest })
-  | _, _ => (c.ctxs.length, { c with ctxs := c.ctxs ++ [{ closed := false, response := none, msg := none }] })
+  match c.mode, c.ctxPool with
+  | .noPool, _ => (c.ctxs.length, { c with ctxs := c.ctxs ++ [{ closed := false, response := none, msg := none }] })
+  | _, i :: rest => (i, { c with ctxPool := rest })
+  | _, [] => (c.ctxs.length, { c with ctxs := c.ctxs ++ [{ closed := false, response := none, msg := none }] })
 
 /-- `getResponseChannel()` -/
 def getChan (c : Cfg) : ChanId × Cfg :=
-  match c.pooling, c.chanPool with
-  | true, i :: rest => (i, { c with chanPool := rest })
-  | _, _ => (c.chans.length, { c with chans := c.chans ++ [none] })
+  match c.mode, c.chanPool with
+  | .noPool, _ => (c.chans.length, { c with chans := c.chans ++ [none] })
+  | _, i :: rest => (i, { c with chanPool := rest })
+  | _, [] => (c.chans.length, { c with chans := c.chans ++ [none] })
 
 def startNext (c : Cfg) (t : Thread) : Cfg × Thread :=
   match t.prog with
@@ -113,6 +127,24 @@ def finishOp (c : Cfg) (t : Thread) (r : Res) : Cfg × Thread :=
   | some op => startNext c { t with hist := (op, r) :: t.hist }
   | none => startNext c t
 
+/-- what the caller does after its select -/
+def close (c : Cfg) (t : Thread) (i : CtxId) (ch : ChanId) (r : Res) : Cfg × Thread :=
+  match c.mode with
+  | .fixed =>
+    match r with
+    | .reply _ => finishOp { setChan c ch none with chanPool := c.chanPool ++ [ch] } t r
+    | _ => finishOp c t r
+  | _ =>
+    let c1 := modCtx c i (fun x => { x with closed := true })
+    let c2 := setChan c1 ch none
+    finishOp { c2 with chanPool := c2.chanPool ++ [ch] } t r
+
+/-- after the select: the code as it is has one more atomic site (the late store); the repaired code has none -/
+def afterSelect (c : Cfg) (t : Thread) (i : CtxId) (ch : ChanId) (r : Res) : Cfg × Thread :=
+  match c.mode with
+  | .fixed => close c t i ch r
+  | _ => (c, { t with pc := some (.askClose i ch r) })
+
 def exec (c : Cfg) (t : Thread) : PC → Cfg × Thread
   | .askBuild i k =>
     let c1 := modCtx c i (fun x => { x with closed := false })
@@ -121,14 +153,11 @@ def exec (c : Cfg) (t : Thread) : PC → Cfg × Thread
     ({ c3 with mbox := c3.mbox ++ [i] }, { t with pc := some (.askSelect i ch k) })
   | .askSelect i ch k =>
     match chanOf c ch with
-    | some v => (setChan c ch none, { t with pc := some (.askClose i ch (.reply v)) })
+    | some v => afterSelect (setChan c ch none) t i ch (.reply v)
     | none =>
-      if t.deadline then ({ c with log := .timedOut k :: c.log }, { t with pc := some (.askClose i ch .timeout) })
+      if t.deadline then afterSelect { c with log := .timedOut k :: c.log } t i ch .timeout
       else (c, t)   -- not runnable
-  | .askClose i ch r =>
-    let c1 := modCtx c i (fun x => { x with closed := true })
-    let c2 := setChan c1 ch none
-    finishOp { c2 with chanPool := c2.chanPool ++ [ch] } t r
+  | .askClose i ch r => close c t i ch r
   | .hDeq =>
     match c.mbox with
     | [] => finishOp c t .empty
@@ -191,11 +220,11 @@ def spawn (c : Cfg) : List (List Op) → Cfg
     let (c', t) := startNext c { pc := none, cur := none, prog := p, hist := [], deadline := false }
     spawn { c' with threads := c'.threads ++ [t] } ps
 
-def empty (pooling : Bool) : Cfg :=
-  { pooling, ctxs := [{ closed := false, response := none, msg := none }], chans := [], ctxPool := [], chanPool := [],
+def empty (mode : Mode) : Cfg :=
+  { mode, ctxs := [{ closed := false, response := none, msg := none }], chans := [], ctxPool := [], chanPool := [],
     sentinel := 0, mbox := [], threads := [], log := [] }
 
-def init (pooling : Bool) (progs : List (List Op)) : Cfg := spawn (empty pooling) progs
+def init (mode : Mode) (progs : List (List Op)) : Cfg := spawn (empty mode) progs
 
 def label : PC → String
   | .askBuild .. => "Store:responseClosed" | .askSelect .. => "Call:Get" | .askClose .. => "Store:responseClosed"
